@@ -617,7 +617,8 @@ pub enum Subsystem {
 }
 
 impl Subsystem {
-    fn from_frame(mut r: Frame) -> Option<Subsystem> {
+    /// Takes the next `changed` entry out of the given frame, if there is one.
+    fn from_frame(r: &mut Frame) -> Option<Subsystem> {
         r.get("changed").map(|raw| match &*raw {
             "database" => Subsystem::Database,
             "message" => Subsystem::Message,
